@@ -101,6 +101,11 @@ def _replace_if_safeds_keyword_in_path(path: str) -> str:
     return ".".join(_replace_if_safeds_keyword(segment) for segment in path.split("."))
 
 
+def _escape_string_literal(text: str) -> str:
+    """Escape a Python string value so that it can be written between double quotes in a stub."""
+    return text.replace("\\", "\\\\").replace('"', '\\"').replace("\n", "\\n").replace("\r", "\\r").replace("\t", "\\t")
+
+
 def _create_name_annotation(name: str) -> str:
     return f'@PythonName("{name}")'
 
